@@ -1374,6 +1374,11 @@ func (ctx *RenderContext) getAttribute(obj interface{}, attr string) (interface{
 	// Interface-keyed maps (map[interface{}]interface{}, as YAML decoders
 	// produce them) hold the attribute under the string key of that name
 	if objValue.Kind() == reflect.Map && objValue.Type().Key().Kind() == reflect.Interface {
+		// (a key type like fmt.Stringer or error is an interface as well, but no
+		// string is a key of such a map)
+		if !reflect.TypeOf(attr).AssignableTo(objValue.Type().Key()) {
+			return nil, nil
+		}
 		value := objValue.MapIndex(reflect.ValueOf(attr))
 		if value.IsValid() && value.CanInterface() {
 			return value.Interface(), nil
